@@ -1,12 +1,12 @@
 SPECIFICATION Spec
 CONSTANTS
-  MaxN = 4
-  Templates <- TplC18r
+  MaxN = 2
+  Templates <- TplC18e
   Bundles <- Ca1Only
-  Ctxs <- Ample
+  Ctxs <- Wide
   Reqs <- FullReq
   Calls <- OneCall
-  Tries <- Three
+  Tries <- One
   Hists <- NoHist
   BackoffCfgs <- NoBoCfgs
   Attempts <- BoAttempts
